@@ -2,7 +2,7 @@
 # tools/seeded_batch.sh C02 C03 ...  : confirm + evaluate /tmp/seed/out-<P>/m1,m2 ; then remove the worktree
 cd /verif
 for p in "$@"; do
-  for k in m1 m2; do
+  for k in ${SEED_KS:-m1 m2}; do
     [ -f /tmp/seed/out-$p/$k/patch.diff ] || { echo "$p-$k: no patch delivered"; continue; }
     tools/seeded_confirm.sh /tmp/seed/out-$p/$k $p-$k $p 2>&1 | grep "CONFIRM" | head -2
     [ -d seeded/$p-$k ] && tools/seeded_eval.py $p-$k --jobs=14 2>&1 | grep -v -i conda | tail -1
